@@ -147,6 +147,31 @@ fn extend_lifetime(
     unsafe { mem::transmute(diff_objects) }
 }
 
+impl OsuGradualDifficulty {
+    /// Same as [`Iterator::nth`] except that `n` is clamped to the amount of
+    /// remaining values, i.e. the last value is returned if fewer than
+    /// `n + 1` values remain.
+    pub(crate) fn nth_clamped(&mut self, n: usize) -> Option<OsuDifficultyAttributes> {
+        let skip_iter = self.diff_objects.iter().skip(self.idx.saturating_sub(1));
+
+        let mut take = cmp::min(n, self.len().saturating_sub(1));
+
+        // The first note has no difficulty object
+        if self.idx == 0 && take > 0 {
+            take -= 1;
+            self.idx += 1;
+        }
+
+        for curr in skip_iter.take(take) {
+            self.skills.process(curr, &self.diff_objects);
+            Self::increment_combo(curr.base, &mut self.attrs);
+            self.idx += 1;
+        }
+
+        self.next()
+    }
+}
+
 impl Iterator for OsuGradualDifficulty {
     type Item = OsuDifficultyAttributes;
 
@@ -184,23 +209,14 @@ impl Iterator for OsuGradualDifficulty {
     }
 
     fn nth(&mut self, n: usize) -> Option<Self::Item> {
-        let skip_iter = self.diff_objects.iter().skip(self.idx.saturating_sub(1));
+        // Fewer than `n + 1` values remain so the iterator is exhausted
+        if n >= self.len() {
+            self.idx = self.diff_objects.len() + 1;
 
-        let mut take = cmp::min(n, self.len().saturating_sub(1));
-
-        // The first note has no difficulty object
-        if self.idx == 0 && take > 0 {
-            take -= 1;
-            self.idx += 1;
+            return None;
         }
 
-        for curr in skip_iter.take(take) {
-            self.skills.process(curr, &self.diff_objects);
-            Self::increment_combo(curr.base, &mut self.attrs);
-            self.idx += 1;
-        }
-
-        self.next()
+        self.nth_clamped(n)
     }
 }
 
